@@ -24,7 +24,7 @@ GROUPS = ["node_ll", "node_xyz", "edge_ll", "edge_xyz", "face_ll", "face_xyz"]
 ORDERS = list(itertools.permutations(range(6)))
 MIN_EVAL = {"quick": {"same_point": 800, "lon_lat_range": 800, "derived_unit_length": 300, "derived_centre_is_corner_mean": 200, "normalize_keeps_direction": 600},
             "thorough": {"same_point": 15000, "lon_lat_range": 15000, "derived_unit_length": 5000, "derived_centre_is_corner_mean": 3500, "normalize_keeps_direction": 10000}}
-NODE_PROV = ["ll", "xyz", "both", "both_radius", "both_int", "xyz_f32", "xyz_f32_km", "xyz_i32_m", "ugrid_dask"]
+NODE_PROV = ["ll", "xyz", "both", "both_radius", "both_int", "xyz_f32", "xyz_f32_km", "xyz_i32_m", "ugrid_dask", "xyz_nearly_unit", "mpas_twice"]
 CEN_PROV = ["none", "ll", "xyz", "both"]
 
 
@@ -82,6 +82,28 @@ def build(case, m):
         fv = np.array([m.xyz[f] for f in m.faces])
         fv = {"xyz_f32": fv.astype(np.float32), "xyz_f32_km": (fv * 6371.0).astype(np.float32), "xyz_i32_m": np.rint(fv * 6371000.0).astype(np.int32)}[case["node"]]
         return U.Grid.from_face_vertices(fv, latlon=False), {"node_xyz"}
+    if case["node"] == "mpas_twice" and ref.is_manifold(m.faces):
+        # one in-memory MPAS dataset opened twice (primal, then primal or dual): the SECOND grid is judged
+        from .. import dialects
+
+        ds, info = dialects.mpas_dataset(m, rng, force={"xyz": bool(rng.random() < 0.5)})
+        U.open_grid(ds)
+        dual = bool(rng.random() < 0.5)
+        g = U.open_grid(ds, use_dual=dual)
+        # every group may come from the file: only "same point", ranges and first-read stability are judged for this provenance
+        return g, {"node_ll", "node_xyz", "face_ll", "face_xyz", "edge_ll", "edge_xyz"}
+    if case["node"] == "xyz_nearly_unit":
+        # Cartesian corners whose lengths are almost, not exactly, one (a slightly different radius): whatever is called first,
+        # lon/lat and xyz must denote the same directions
+        w = max(len(f) for f in m.faces)
+        fv = np.full((m.n_face, w, 3), float(ux.INT_FILL))
+        scale = 1.0 + float(rng.choice([4e-6, -3e-6, 1e-7]))
+        for i, f in enumerate(m.faces):
+            fv[i, : len(f)] = m.xyz[f] * scale
+        g = U.Grid.from_face_vertices(fv, latlon=False)
+        if rng.random() < 0.7:
+            g.normalize_cartesian_coordinates()  # before anything was read
+        return g, {"node_xyz"}
     if case["node"] in ("xyz", "xyz_f32", "xyz_f32_km", "xyz_i32_m"):
         w = max(len(f) for f in m.faces)
         fv = np.full((m.n_face, w, 3), float(ux.INT_FILL))
@@ -151,7 +173,7 @@ def run_case(ctx, case):
     except Exception as e:
         ctx.check("no_exception", False, {"stage": "construct", "node": case["node"], "face": case["face"], "edge": case["edge"], "exc": core.exc_sig(e)}, {"exc": repr(e), "case": case})
         return
-    xyz_only = case["node"] in ("xyz", "xyz_f32", "xyz_f32_km", "xyz_i32_m")
+    xyz_only = case["node"] in ("xyz", "xyz_f32", "xyz_f32_km", "xyz_i32_m", "xyz_nearly_unit") or (case["node"] == "mpas_twice")
     prov = {"node": case["node"], "face": ("face_ll" in supplied and "ll" or "none") if case["node"] == "ugrid_dask" else (case["face"] if not xyz_only else "none"),
             "edge": case["edge"] if not (xyz_only or case["node"] == "ugrid_dask") else "none"}
     first = {}
